@@ -167,7 +167,8 @@ func (t *multiTransport) RoundTrip(req *http.Request) (*http.Response, error) {
 		return &http.Response{StatusCode: 404, Status: "404 Not Found", Proto: "HTTP/1.1", ProtoMajor: 1, ProtoMinor: 1,
 			Header: http.Header{}, Body: io.NopCloser(bytes.NewReader(b)), ContentLength: int64(len(b)), Request: req}, nil
 	}
-	if t.slow != "" && req.URL.Host == t.slow && strings.HasSuffix(req.URL.Path, "/APKINDEX.tar.gz") {
+	// every lookup of an index starts with a HEAD (also when the parsed index is remembered by its ETag)
+	if t.slow != "" && req.URL.Host == t.slow && req.Method == http.MethodHead && strings.HasSuffix(req.URL.Path, "/APKINDEX.tar.gz") {
 		time.Sleep(t.delay)
 	}
 	return st.RoundTrip(req)
